@@ -284,7 +284,9 @@ PRECONDITIONS = {
     ('hex.add_shifted', 5): lambda z: z['src_n'] + z['hex_shift'] <= z['dst_n'],
     ('hex.sub_shifted', 5): lambda z: z['src_n'] + z['hex_shift'] <= z['dst_n'],
 }
-EXTRA_SIZES = {'dst_n': (4, 5, 8, 12, 16), 'hex_shift': (0, 1, 4), 'x_prefix': (0, 1), 'times': (1, 4, 5)}
+EXTRA_SIZES = {'dst_n': (4, 5, 8, 12, 16), 'hex_shift': (0, 1, 4), 'x_prefix': (0, 1), 'times': (1, 4, 5),
+               # constants with trailing zero hexes (the constant macros shift those out first) - all below 16^4, the smallest destination
+               'const': (1, 5, 0x10, 0x100, 0xf000)}
 
 
 def size_params(fpx: Footprints, key: Tuple[str, int]) -> Optional[List[str]]:
@@ -401,7 +403,10 @@ def rule_extent(rep: Report, stl: Stl, prop: str, files: List[str], floor: int, 
 # ---------------------------------------------------------------- FJ.SCRATCH (re-entrancy of macro-local scratch cells)
 
 # declarations of a data cell WITHOUT an explicit initial value: (macro, arity) -> index of the size argument (None: one cell)
-SCRATCH_DECLS: Dict[Tuple[str, int], Optional[int]] = {('bit.bit', 0): None, ('bit.vec', 1): 0, ('hex.hex', 0): None, ('hex.vec', 1): 0}
+SCRATCH_DECLS: Dict[Tuple[str, int], Optional[int]] = {('bit.bit', 0): None, ('bit.vec', 1): 0, ('hex.hex', 0): None, ('hex.vec', 1): 0,
+                                                        # declared WITH a load-time value: a constant when nobody writes it; when the macro writes it,
+                                                        # the next execution starts from what the last one left (the fresh-read clause)
+                                                        ('bit.bit', 1): None, ('bit.vec', 2): 0, ('hex.hex', 1): None, ('hex.vec', 2): 0}
 
 
 def scratch_cells(m: Macro) -> Dict[str, int]:
